@@ -1424,12 +1424,10 @@ APPEND(%%_shuffle_blocks_, i):
         vpaddq  xmm13, xmm0
 
         ; Put together A
-        vmovq   %%A0, xmm13
-
+        ; (limb 0 can exceed 44 bits after the last carry above: add it in, with carry)
         vmovq   %%T0, xmm14
         mov     %%T1, %%T0
         shl     %%T1, 44
-        or      %%A0, %%T1
 
         shr     %%T0, 20
         vmovq   %%A2, xmm15
@@ -1437,6 +1435,11 @@ APPEND(%%_shuffle_blocks_, i):
         shl     %%A1, 24
         or      %%A1, %%T0
         shr     %%A2, 40
+
+        vmovq   %%A0, xmm13
+        add     %%A0, %%T1
+        adc     %%A1, 0
+        adc     %%A2, 0
 
         ; Clear powers of R
 %ifdef SAFE_DATA
